@@ -6,6 +6,7 @@ import ast
 from sa.absint import AObj, Interp, Sym, to_text
 from sa.pyindex import free_module_state, get_index
 from sa.report import PROP_ASSUMPTIONS, PROP_EXPLANATION, rule
+from sa.symex import U
 
 from .common import IntervalSym, fn_where, interval_compare, mk_vt, outcome_text
 
@@ -233,6 +234,22 @@ def r04_4(ctx):
 
 @rule("R04.5", "C04", "type-rule functions are pure functions of their arguments (no module/class-level state, no memo)", min_instances=3)
 def r04_5(ctx):
+    # sign and width are VALUES: compared with == / != (identity of two equal ints or bools is an implementation detail of the
+    # interpreter - small ints are shared, 1024 is not)
+    idx0 = get_index(ctx.env)
+    bad = []
+    n_cmp = 0
+    for q, f_ in sorted(idx0.funcs.items()):
+        if ".Tests" in f_.module:
+            continue
+        for c_ in ast.walk(f_.node):
+            if isinstance(c_, ast.Compare):
+                n_cmp += 1
+                sides = [c_.left] + list(c_.comparators)
+                for op_, (l_, r_) in zip(c_.ops, zip(sides, sides[1:])):
+                    if isinstance(op_, (ast.Is, ast.IsNot)) and any(U(x).split(".")[-1] in ("signed", "bit_width", "_signed", "_bit_width") for x in (l_, r_)):
+                        bad.append(f"{q}:{c_.lineno} {U(c_)[:60]}")
+    ctx.check("sign and width of types are compared by value, never by identity", n_cmp >= 100 and not bad, "== / !=", "; ".join(bad[:3]) or "no identity comparison on .signed / .bit_width", "rzilcompiler/")
     idx = get_index(ctx.env)
     for q in ("c11_cast", "promoted_type", "ValueType.__eq__"):
         root = idx.func(q)
